@@ -520,5 +520,19 @@ mut("15N-depth-given-back-by-hand", "C15", None, (DEC, "	d.depth++\n	defer func(
 mut("15-string-allocated-unchecked", "C15", "PopMessage/make", ("internal/encoding/tl/cursor_r.go", "	if realSize > d.buf.Len() {\n		d.err = fmt.Errorf(\"message of %v bytes can't fit in %v bytes left\", realSize, d.buf.Len())\n		return nil\n	}\n", ""))
 mut("20-bracketed-host-accepted", "C20", "address-literals-refused", ("telegram/deeplinks/resolver.go", "	if strings.HasPrefix(u.Host, \"[\") {\n		return nil, fmt.Errorf(\"'%v' is an address literal, not a hostname owned by telegram\", u.Host)\n	}\n", ""))
 
+# --- eighth round ---------------------------------------------------------------------------------------
+mut("05-encrypt-own-size-limit", "C05", "wrapper-refuses-only-what-the-cipher-refuses", ("internal/aes_ige/aes.go", "func Encrypt(msg, key []byte) ([]byte, error) {\n", "func Encrypt(msg, key []byte) ([]byte, error) {\n	if len(msg) > 1<<24 {\n		return nil, ErrDataTooSmall\n	}\n"))
+mut("07-fingerprint-low-half", "C07", "fingerprint/all-64-bits", (H, "		if uint64(b) == binary.LittleEndian.Uint64(keys.RSAFingerprint(m.publicKey)) {", "		if uint32(b) == binary.LittleEndian.Uint32(keys.RSAFingerprint(m.publicKey)) {"))
+mut("08-readmsg-closes-on-parse-error", "C08", "read-path-never-closes", ("internal/transport/transport.go", "		code := int(int32(binary.LittleEndian.Uint32(data))) // transport error codes are signed, e.g. -404\n", "		code := int(int32(binary.LittleEndian.Uint32(data))) // transport error codes are signed, e.g. -404\n		defer t.Close()\n"))
+mut("09-sendpacket-forgets-stale", "C09", "forget:only-when-served", ("network.go", "		m.responseChannels.Add(int(msgID), resp)\n", "		m.responseChannels.Delete(int(msgID) - 4)\n		m.responseChannels.Add(int(msgID), resp)\n"))
+mut("12-missing-salt-is-not-found", "C12", "not-found-only-when-missing", ("internal/session/file.go", "	s, err := file.readSession()\n	if err != nil {\n		return nil, err\n	}\n", "	s, err := file.readSession()\n	if err != nil {\n		return nil, errs.NotFound(\"session\", l.path)\n	}\n"))
+mut("13-enum-constants-trade-ids", "C13", "registered:", ("telegram/enums_gen.go", "	InputPrivacyKeyForwards        InputPrivacyKey = 0xa4dd4c08\n	InputPrivacyKeyPhoneCall       InputPrivacyKey = 0xfabadc5f\n", "	InputPrivacyKeyForwards        InputPrivacyKey = 0xfabadc5f\n	InputPrivacyKeyPhoneCall       InputPrivacyKey = 0xa4dd4c08\n"))
+mut("16-inflate-until-eof-only", "C16", "read-loop", ("internal/mtproto/objects/types.go", "		n, _ := gz.Read(b)\n\n		decompressed = append(decompressed, b[0:n]...)\n		if n <= 0 {\n			break\n		}\n", "		n, err := gz.Read(b)\n\n		decompressed = append(decompressed, b[0:n]...)\n		if err == io.EOF {\n			break\n		}\n"), ("internal/mtproto/objects/types.go", "	\"compress/gzip\"\n", "	\"compress/gzip\"\n	\"io\"\n"))
+mut("17-reconnect-restores-session", "C17", "reconnect-dials-the-address-just-set", ("mtproto.go", "	err = m.CreateConnection()\n	return errors.Wrap(err, \"recreating connection\")", "	if s, loadErr := m.tokensStorage.Load(); loadErr == nil && s != nil {\n		m.addr = s.Hostname\n	}\n	err = m.CreateConnection()\n	return errors.Wrap(err, \"recreating connection\")"))
+mut("15-decode-unknown-may-return-nil-nil", "C15", "value-or-error:DecodeUnknownObject", (DEC, "	obj := d.decodeRegisteredObject()\n	if d.err != nil {\n		return nil, errors.Wrap(d.err, \"decoding predicted object\")\n	}\n	return obj, nil\n}\n\n// DecodeNestedObject", "	obj := d.decodeRegisteredObject()\n	if d.err != nil && obj == nil {\n		return nil, errors.Wrap(d.err, \"decoding predicted object\")\n	}\n	return obj, nil\n}\n\n// DecodeNestedObject"))
+mut("19-generator-keeps-last-draw", "C19", "global-write", ("internal/encoding/tl/common_types.go", "func cryptoRandomBytes(size int) []byte {\n	b := make([]byte, size)\n", "var seedLastDraw []byte\n\nfunc cryptoRandomBytes(size int) []byte {\n	b := make([]byte, size)\n	seedLastDraw = b\n"))
+mut("14N-excluded-lookup-via-variable", "C14", None, ("internal/cmd/tlgen/tlparser/parser.go", "		if _, found := excludedTypes[typSpace]; found {", "		_, isBuiltin := excludedTypes[typSpace]\n		if isBuiltin {"))
+mut("05N-decrypt-wraps-cipher-error", "C05", None, ("internal/aes_ige/aes.go", "	out := make([]byte, len(msg))\n	if err := c.doAES256IGEdecrypt(msg, out); err != nil {\n		return nil, err\n	}", "	out := make([]byte, len(msg))\n	if err := c.doAES256IGEdecrypt(msg, out); err != nil {\n		return nil, errors.Wrap(err, \"decrypting\")\n	}"), ("internal/aes_ige/aes.go", "import (\n", "import (\n	\"github.com/pkg/errors\"\n"))
+
 json.dump(M, open('/verif/selftest/mutations.json', 'w'), indent=1, ensure_ascii=False)
 print(len(M), "mutations")
